@@ -317,7 +317,7 @@ func c17Sections(file []byte) (secs []c17Section, err error) {
 		rg := &md.RowGroups[ri]
 		lp := fmt.Sprintf("footer/rg%d/", ri)
 		text(lp+"num-rows", "footer-row-group-num-rows", rg.NumRows)
-		text(lp+"sorting-columns", "footer-sorting-columns", rg.SortingColumns)
+		text(lp+"sorting-columns", "footer-sorting-columns", fmt.Sprintf("%+v absent=%v", rg.SortingColumns, rg.SortingColumns == nil))
 		for ci := range rg.Columns {
 			cc := &rg.Columns[ci]
 			m := &cc.MetaData
@@ -334,6 +334,8 @@ func c17Sections(file []byte) (secs []c17Section, err error) {
 			text(lc+"statistics-distinct-count", "footer-statistics-distinct-count", m.Statistics.DistinctCount)
 			text(lc+"encoding-stats", "footer-encoding-stats", m.EncodingStats)
 			text(lc+"size-statistics", "footer-size-statistics", m.SizeStatistics)
+			text(lc+"geospatial-statistics", "footer-geospatial-statistics", fmt.Sprintf("%+v types=%v/%v", m.GeospatialStatistics.BBox,
+				[]int32(m.GeospatialStatistics.GeoSpatialTypes), m.GeospatialStatistics.GeoSpatialTypes == nil))
 			text(lc+"key-value-metadata", "footer-column-key-value-metadata", m.KeyValueMetadata)
 			text(lc+"sizes", "footer-column-sizes", []int64{m.TotalUncompressedSize, m.TotalCompressedSize})
 			text(lc+"offsets", "footer-column-offsets", []int64{m.DataPageOffset, m.IndexPageOffset, m.DictionaryPageOffset, m.BloomFilterOffset, int64(m.BloomFilterLength),
